@@ -186,18 +186,19 @@ CLAIMED.update({
 
 CLAIMED.update({
  "C03": dict(category="other",
-    text="The marshal / parse half, per message class: for every valid message object m of a class under contract "
-         "(ids in 0..2^53, URIs of the WAMP grammar, every combination of present / absent optional fields, forwarding "
-         "chains of any length) "
-         "Cls.parse(m.marshal()) is an instance of the same class with equal values in every field. The real marshal, "
-         "parse, constructor, property getters, check_or_raise_extra and _validate_kwargs are inlined from the current "
-         "source; the id / URI validators enter through their C08-proved contracts. A counterexample is rebuilt with "
-         "the real class and replayed through marshal and parse.",
+    text="The marshal / parse half, per message class, for 23 of the 25 classes (all but Hello / Welcome): for every valid "
+         "message object m (ids in 0..2^53, URIs of the WAMP grammar, every combination of present / absent options, "
+         "white / black lists and forwarding chains of any length, args a list of anything, kwargs a dict with string "
+         "keys, or an opaque payload with valid transparency attributes) Cls.parse(m.marshal()) is an instance of the same "
+         "class with equal values in every field -- args / kwargs modulo the wire format's inability to tell absent from "
+         "empty. The real marshal, parse, constructor and property getters are inlined from the current source; validators "
+         "and is_valid_enc_* enter through their C08-proved contracts. A counterexample is rebuilt with the real class and "
+         "replayed through marshal and parse.",
     note="Trusted: z3, pyvc. Assumed, not decided: the third-party codecs (json, msgpack, cbor2, ubjson) and the batch "
          "framing reproduce the marshalled list / dict / scalar structure -- so 'through each serializer', batching and "
-         "the binary flag are NOT decided (level 'other'). Classes under contract are listed in the evidence file; "
-         "the others are listed under not covered.",
-    technique="contract-based deductive verification: AST->VC round-trip lemma per class over the real marshal/parse, z3 strings + regex"),
+         "the binary flag are NOT decided (level 'other'). Hello / Welcome (role feature objects) and PUBLISH with "
+         "pre-serialized str / bytes args are not covered.",
+    technique="contract-based deductive verification: AST->VC round-trip lemma per class over the real marshal/parse, untrusted list/dict value types, z3 strings + regex"),
 })
 
 CLAIMED.update({
